@@ -71,7 +71,7 @@ func (r *valueReflect) reuse(value reflect.Value, cacheEntry *TypeReflectCacheEn
 	if cacheEntry == nil {
 		cacheEntry = TypeReflectEntryOf(value.Type())
 	}
-	if cacheEntry.CanConvertToUnstructured() {
+	if cacheEntry.canConvertValueToUnstructured(value) {
 		u, err := cacheEntry.ToUnstructured(value)
 		if err != nil {
 			return nil, err
